@@ -18,7 +18,7 @@
 Require Import Bool List Arith.
 From PV Require Import Lattice.
 From PV Require Import Outcome Fock Poly PolySem.   (* imported last: [state], [op] are Fock's *)
-From PVgen Require Import Gen_LatticePresets.
+From PVgen Require Import Gen_LatticePresets Gen_LatticeDocs.
 Import ListNotations.
 
 Section Spec.
@@ -121,11 +121,18 @@ Definition spec_coulombP (l : L) (norb nspin : nat) (U Up J eps : K) : mat :=
 Definition spec_coulombP3 (l : L) (norb nspin : nat) (U J eps : K) : mat :=
   spec_coulombP l norb nspin U (ksub U (kadd J J)) J eps.
 
-(** ** LatticePresets.h:121-126  addMagnetization: sum_alpha mH 1/2 (n_{alpha up} - n_{alpha down}) *)
-Definition m_sz (l : L) (a : nat) : mat :=
-  m_scale khalf (m_sub (m_n (idx l a up)) (m_n (idx l a down))).
+(** ** LatticePresets.h:121-126  addMagnetization.
+      The documented formula is READ FROM THE HEADER on every run (translator/gen_c04.py ->
+      PVgen.Gen_LatticeDocs.doc_magnetization_half):
+        doc_magnetization_half = true :  sum_alpha mH 1/2 (n_{alpha up} - n_{alpha down})   (the text up to /repo commit 6442010)
+        doc_magnetization_half = false:  sum_alpha mH     (n_{alpha up} - n_{alpha down})   (the text since then)
+      [spec_magnetization_with] is the formula for either reading, [spec_magnetization] the one the header states. *)
+Definition m_nud (l : L) (a : nat) : mat := m_sub (m_n (idx l a up)) (m_n (idx l a down)).      (* n_up - n_down *)
+Definition m_sz (l : L) (a : nat) : mat := m_scale khalf (m_nud l a).                           (* S_z = 1/2 (n_up - n_down) *)
+Definition spec_magnetization_with (half : bool) (l : L) (norb : nat) (mH : K) : mat :=
+  m_sum (rng norb) (fun a => m_scale mH (if half then m_sz l a else m_nud l a)).
 Definition spec_magnetization (l : L) (norb : nat) (mH : K) : mat :=
-  m_sum (rng norb) (fun a => m_scale mH (m_sz l a)).
+  spec_magnetization_with doc_magnetization_half l norb mH.
 
 (** ** LatticePresets.h:135-145  addSzSz:
       sum_alpha J 1/2 (n_{i alpha up} - n_{i alpha down}) 1/2 (n_{j alpha up} - n_{j alpha down}) *)
